@@ -145,7 +145,11 @@ class Token(str):
         for ws in reversed(self.grammar.whitespace):
             temp = self.replace(ws, " ")
 
-        return all(t.is_comment() for t in temp.split())
+        # str.split() also drops characters that Python, but not this
+        # grammar, considers to be white space: a token made only of
+        # those has no parts, and must not count as white space.
+        parts = temp.split()
+        return len(parts) > 0 and all(t.is_comment() for t in parts)
 
     def is_comment(self) -> bool:
         """Return true if the Token is a comment according to the
